@@ -41,6 +41,8 @@ def prop (trace : List (Rec × List Rec)) : Option String := Id.run do
   for (op, obs) in trace do
     -- outside the property's domain (speeds are positive): stop judging this history
     if op.name == "add" && (op.ints "ids").any (fun i => !(s.spd i > 0)) then return none
+    -- ... and added units are new (OpValid): a unit is in the turn order at most once
+    if op.name == "add" && ((op.ints "ids").any (fun i => s.order.any (·.1 == i)) || !(op.ints "ids").Nodup) then return none
     if op.name == "spd" && !(op.flt "v" > 0) then return none
     if op.name == "setcost" && op.flt "amt" < 0 then return none
     if op.name == "modcost" && s.cost + op.flt "amt" < 0 then return none
